@@ -40,7 +40,8 @@ def required_cells(tier):
             "platforms>=3", "commands>=4", "tu-boundary-snapshots", "cli:-p", "forced-include", "history>=200-commands",
             "history>=200-once-skips", "db:no-directory-after-directory", "db:relative-directory",
             "stateful-option:same-compiler-twice", "stateful-option:different-values", "same-arguments-different-directory",
-            "class:U-unresolvable-includes", "header-missing-for-one-command-found-by-another", "unknown-compiler-after-known-one"]
+            "class:U-unresolvable-includes", "header-missing-for-one-command-found-by-another", "unknown-compiler-after-known-one",
+            "member-header-shared-by-fortran-and-c"]
 
 
 def gen_case(rng):
@@ -241,6 +242,63 @@ def check_unresolvable(ctx, case, base):
                      cells=cells, nontrivial=nontriv, cls="U")
     else:
         acc.held(cells=cells, nontrivial=nontriv, cls="U")
+
+
+def check_mixed_language_member(ctx, base):
+    """A member header (`params.inc`, `shared.h`) included by a free-form Fortran unit and by a C unit: members are
+    parsed once, by their own extension, so neither the order of the two commands nor analysing them alone changes
+    which lines each command uses."""
+    from codebasin import CodeBase, finder
+    acc = ctx.acc
+    shutil.rmtree(base, ignore_errors=True)
+    root = os.path.join(base, "root")
+    os.makedirs(root)
+    hdr = "/* legacy switch:\n#define USE_LEGACY_SOLVER 1\n*/\n#define PARAMS_SEEN 1\n// don't\n"
+    files = {"params.inc": hdr, "shared.h": hdr.replace("PARAMS_SEEN", "SHARED_SEEN").replace("USE_LEGACY_SOLVER", "USE_LEGACY_H"),
+             "driver.F90": "program p\n#include \"params.inc\"\n#include \"shared.h\"\n#ifdef USE_LEGACY_SOLVER\n  x = 1\n#else\n  x = 2\n#endif\n#ifdef USE_LEGACY_H\n  y = 1\n#endif\nend program p\n",
+             "solver.c": "#include \"params.inc\"\n#include \"shared.h\"\n#ifdef USE_LEGACY_SOLVER\nint legacy;\n#else\nint modern;\n#endif\n#ifdef PARAMS_SEEN\nint seen;\n#endif\n"}
+    for rel, text in files.items():
+        with open(os.path.join(root, rel), "w") as f:
+            f.write(text)
+    ent = {n: {"file": os.path.join(root, n), "defines": [], "include_paths": [root], "include_files": []} for n in ("driver.F90", "solver.c")}
+
+    def run(order, plats):
+        cb = CodeBase(root)
+        conf = {}
+        for n, p in zip(order, plats):
+            conf.setdefault(p, []).append(ent[n])
+        st = finder.find(root, cb, conf, show_progress=False)
+        res = {}
+        for rel in files:
+            lines, _ = cbi.per_line(st, os.path.join(root, rel))
+            res[rel] = {ln: sorted(ps) for ln, ps in lines.items()}
+        return res
+
+    problems = []
+    try:
+        a = run(["driver.F90", "solver.c"], ["p", "p"])
+        b = run(["solver.c", "driver.F90"], ["p", "p"])
+        if a != b:
+            problems.append({"kind": "command order changes the result for a member header shared by Fortran and C",
+                             "diff": {r: [a[r], b[r]] for r in files if a[r] != b[r]}})
+        f_only = run(["driver.F90"], ["p"])
+        c_only = run(["solver.c"], ["p"])
+        union = {r: {ln: sorted(set(f_only[r].get(ln, [])) | set(c_only[r].get(ln, []))) for ln in set(f_only[r]) | set(c_only[r])} for r in files}
+        if union != a:
+            problems.append({"kind": "union of the single-command runs differs (member header shared by Fortran and C)",
+                             "diff": {r: [union[r], a[r]] for r in files if union[r] != a[r]}})
+        two = run(["driver.F90", "solver.c"], ["f", "c"])
+        two_r = run(["solver.c", "driver.F90"], ["c", "f"])
+        if two != two_r:
+            problems.append({"kind": "platform order changes the result (member header shared by Fortran and C)"})
+        acc.hook("find", 6)
+    except Exception as e:
+        problems.append({"kind": "exception", "observed": f"{type(e).__name__}: {e}"})
+    cells = {"member-header-shared-by-fortran-and-c"}
+    if problems:
+        acc.violated({"input": {"stateful": True, "scenario": "mixed-language-member"}, "witness": {"files": files, "problems": problems[:3]}}, cells=cells, cls="S")
+    else:
+        acc.held(cells=cells, cls="S", nontrivial={"scenario": "mixed-language-member"})
 
 
 def check_same_arguments_other_directory(ctx, rng, base):
@@ -534,8 +592,16 @@ def run_shard(ctx):
     for i in range(b["unresolvable"]):
         case = forest.gen(rng, n_tus=rng.randint(2, 5), n_platforms=rng.randint(1, 3), missing=0.15, findable=False, toggles=True,
                           computed=False)     # (nested computed includes redefine HDR without #undef: a constraint violation)
+        # one header tests a predefined macro whose value could depend on how often it was read in this process
+        hs = sorted(r for r in case["files"] if r.endswith(".h"))
+        if hs:
+            h = hs[i % len(hs)]
+            case["files"][h] = [["code"], ["chain", [["if", rng.choice(["__COUNTER__ == 0", "__COUNTER__ + __COUNTER__ == 0", "__INCLUDE_LEVEL__ == 0 || 1"]),
+                                                    [["code"]]], ["else", None, [["code"]]]]]] + case["files"][h][1:]
         if ctx.mine(i):
             check_unresolvable(ctx, case, base)
+    if ctx.shard == 0:
+        check_mixed_language_member(ctx, base)
     rng = ctx.rng("stateful")
     for i in range(b["stateful"]):
         import random as _r
